@@ -381,6 +381,9 @@ func EncodeDHCP4(b []byte, opcode DHCP4OpCode, mt DHCP4MessageType, chaddr net.H
 	}
 	options[DHCP4OptionCode(DHCP4OptionDHCPMessageType)] = []byte{byte(mt)}
 	n := 240 + p.AppendOptions(options, order)
+	if n >= len(p) { // no room for the options and the end marker (a reply encoded in place in a tight request buffer)
+		return nil
+	}
 	p[n] = byte(DHCP4End)
 	n++
 
